@@ -8,9 +8,10 @@ import WebPkg.Driver.OpsBSig
 import WebPkg.Driver.OpsFault
 import WebPkg.Driver.OpsRes
 import WebPkg.Driver.OpsDirWalk
+import WebPkg.Driver.OpsHar
 open WebPkg.Driver
 
-def handlers : List (String → List String → Option String) := [handleCbor, handleMice, handleSH, handleSxg, handleBundle, handleIB, handleBSig, handleFault, handleRes, handleDirWalk]
+def handlers : List (String → List String → Option String) := [handleCbor, handleMice, handleSH, handleSxg, handleBundle, handleIB, handleBSig, handleFault, handleRes, handleDirWalk, handleHar]
 
 /-- ops that differ from a plain op only in HOW the real code is driven (reader / writer kind, object reuse, a preceding
     call in the same process): the model is a pure function of the data, so they are the plain op on the relevant arguments -/
